@@ -1,7 +1,7 @@
 use crate::prelude::{NoopNotifier, ObservationBuilder, SortTrack, TrackStoreBuilder};
 use crate::store::TrackStore;
 use crate::track::utils::FromVec;
-use crate::track::{Feature, Track};
+use crate::track::{Feature, Track, TrackStatus};
 use crate::trackers::epoch_db::EpochDb;
 use crate::trackers::sort::VotingType::Positional;
 use crate::trackers::sort::{
@@ -238,6 +238,8 @@ impl VisualSort {
         store
             .lookup(VisualSortLookup::IdleLookup(scene_id))
             .iter()
+            // an expired track that the periodic collection has not moved out yet is not idle
+            .filter(|(_track_id, status)| !matches!(status, Ok(TrackStatus::Wasted)))
             .map(|(track_id, _status)| {
                 let shard = store.get_store(*track_id as usize);
                 let track = shard.get(track_id).unwrap();
